@@ -20,15 +20,19 @@
 (*    the last entry of ent[t]; parents and scopes follow `par`.           *)
 (* M: tracing-subscriber/src/registry/{sharded,stack}.rs - ref_count =     *)
 (*    handles + non-duplicate stack entries + open children, the per-      *)
-(*    thread stack with duplicate markers, try_close / Clear releasing the *)
-(*    parent through the thread's *current default* (named deviation       *)
-(*    ExitViaCurrentDefault, finding F2).                                  *)
+(*    thread stack with duplicate markers; exit and the removal of a span  *)
+(*    close the span / release its parent through the dispatcher the       *)
+(*    registry noted in on_register_dispatch (its own stack).  ViaDefault  *)
+(*    = TRUE is the design before findings F2 / F32 were repaired: both    *)
+(*    went through the thread's *current default* (MCRegistryF2.cfg keeps  *)
+(*    that design as a negative control).                                  *)
 (* TLC checks that the observation M predicts satisfies A's checks (Good)  *)
 (* for every history within the bounds.                                    *)
 (***************************************************************************)
 EXTENDS Naturals, Sequences, FiniteSets, TLC
 
-CONSTANTS Threads, Regs, MaxSpans, TS   \* TS: slots for captured traces / current handles
+CONSTANTS Threads, Regs, MaxSpans, TS,   \* TS: slots for captured traces / current handles
+          ViaDefault                   \* TRUE: the design before finding F2 was repaired (closes routed through the thread's current default)
 
 NoS == 0
 SpanIds == 1..MaxSpans
@@ -85,11 +89,13 @@ MCurrent(t) == IF cur[t] = 0 THEN NoS
                     IN IF q = << >> THEN NoS ELSE Last(q).s
 \* try_close of span s issued through registry stack r (r = 0: the no-op collector): returns the
 \* resulting <<ref, mopen, closes>>; a close releases the parent through `dflt` again
+\* the registry stack a close of span s is routed through when the thread's default is d
+Route(s, d) == IF ViaDefault THEN d ELSE own[s]
 RECURSIVE MClose(_, _, _, _, _)
 MClose(s, via, dflt, rf, mo) ==
   IF s = NoS \/ via = 0 \/ via # own[s] \/ ~mo[s] THEN [ref |-> rf, mopen |-> mo, closes |-> << >>]
   ELSE IF rf[s] > 1 THEN [ref |-> [rf EXCEPT ![s] = @ - 1], mopen |-> mo, closes |-> << >>]
-  ELSE LET r2 == MClose(par[s], dflt, dflt, [rf EXCEPT ![s] = 0], [mo EXCEPT ![s] = FALSE])
+  ELSE LET r2 == MClose(par[s], Route(s, dflt), dflt, [rf EXCEPT ![s] = 0], [mo EXCEPT ![s] = FALSE])
        IN [ref |-> r2.ref, mopen |-> r2.mopen, closes |-> <<s>> \o r2.closes]
 
 (* ---------------------------- operations ------------------------------ *)
@@ -111,7 +117,7 @@ MObs(op) ==
          [closes |-> << >>, rd |-> TRUE, par |-> NoS, clean |-> TRUE, got |-> NoS, chain |-> << >>]
     [] op.op = "exit" ->
          LET i == CHOOSE j \in DOMAIN stk[t] : stk[t][j].s = op.s /\ \A k \in DOMAIN stk[t] : stk[t][k].s = op.s => k <= j
-         IN [closes |-> IF stk[t][i].dup THEN << >> ELSE MClose(op.s, cur[t], cur[t], ref, mopen).closes,
+         IN [closes |-> IF stk[t][i].dup THEN << >> ELSE MClose(op.s, Route(op.s, cur[t]), cur[t], ref, mopen).closes,
              rd |-> TRUE, par |-> NoS, clean |-> TRUE, got |-> NoS, chain |-> << >>]
     [] op.op = "tdrop" ->
          [closes |-> IF tr[op.k] = NoS THEN << >> ELSE MClose(tr[op.k], own[tr[op.k]], cur[t], ref, mopen).closes,
@@ -146,6 +152,7 @@ Pre(op) ==
 \* that default is not the registry owning the span
 Hazard(op) ==
   LET t == op.t IN
+  IF ~ViaDefault THEN FALSE ELSE
   CASE op.op = "exit" -> cur[t] # own[op.s]
     [] op.op = "drop" -> cur[t] # own[op.s] /\ par[op.s] # NoS
     [] op.op = "drop2" -> (cur[t] # own[op.s] /\ par[op.s] # NoS) \/ (cur[t] # own[op.y] /\ par[op.y] # NoS)
@@ -234,7 +241,7 @@ MEffect(op) ==
                           /\ ref' = IF dup THEN ref ELSE [ref EXCEPT ![op.s] = @ + 1]
                           /\ mopen' = mopen
     [] op.op = "exit" -> LET i == CHOOSE j \in DOMAIN stk[t] : stk[t][j].s = op.s /\ \A k \in DOMAIN stk[t] : stk[t][k].s = op.s => k <= j
-                             r == IF stk[t][i].dup THEN [ref |-> ref, mopen |-> mopen] ELSE MClose(op.s, cur[t], cur[t], ref, mopen)
+                             r == IF stk[t][i].dup THEN [ref |-> ref, mopen |-> mopen] ELSE MClose(op.s, Route(op.s, cur[t]), cur[t], ref, mopen)
                          IN /\ stk' = [stk EXCEPT ![t] = SubSeq(@, 1, i - 1) \o SubSeq(@, i + 1, Len(@))]
                             /\ ref' = r.ref /\ mopen' = r.mopen
     [] op.op = "capture" -> LET c == MCurrent(t) IN ref' = (IF c = NoS THEN ref ELSE [ref EXCEPT ![c] = @ + 1]) /\ UNCHANGED <<stk, mopen>>
